@@ -212,6 +212,17 @@ func TestTableExamples(t *testing.T) {
 				mods[strings.TrimSuffix(filepath.Base(g), ".hms")] = string(gb)
 			}
 		}
+		clock := strings.Contains(string(b), "time.now")
+		for mn, text := range mods {
+			if mn != name && strings.Contains(string(b), "from "+mn) {
+				clock = clock || strings.Contains(text, "time.now")
+			}
+		}
+		if clock {
+			// two runs of a script that reads the wall clock need not print the same text
+			pk.Class("example-skipped:reads-the-clock")
+			continue
+		}
 		for si, seed := range []int64{0, 1, 2, 3, 42, -7, 9223372036854775807, -9223372036854775808} {
 			for _, passes := range []int{1, 2, 3, 4} {
 				k++
